@@ -55,4 +55,10 @@ TABLE.update({
                 note="Trusted base: hivemc/ord.py, ord_worker.py, scen.py (canonicalisation drops only per-run UUID tags and sorts sets/maps); assumes hash values reach behaviour only through iteration order of str-keyed sets/Maps; shipped scenarios run on the straight-line network for a fixed number of seeds."),
 })
 
+TABLE.update({
+    "C15": dict(engine="COMP", design_ref="DESIGN.md 4/C15", technique="exhaustive enumeration of all call compositions (schedules of co-simulation calls) against the single-call run, implementation-level",
+                text="All 2^(N-1) ways of splitting an N-step run into successive hive_cosim.crank calls, for five scenario variants (multi-fleet, charging, human drivers + price file, a stateful custom generator re-injected between calls, lazy file reading) and end times that are / are not a multiple of the step, each from a freshly loaded payload, give per-step states and event multisets identical to one crank(N), to LocalSimulationRunner.run and to repeated .step(), which refuses exactly at end_time; the clock reads start + i*step.",
+                note="Trusted base: hivemc/comp.py, scen.py; covers the first N steps of each scenario."),
+})
+
 NOT_APPLICABLE = {}
